@@ -70,7 +70,10 @@ AccessorsOf(list) ==
 AccessorTags(ok) == LET acc == AccessorsOf(ok.list) IN
   IF ok.unique = acc.unique /\ ok.earliest = acc.earliest /\ ok.latest = acc.latest THEN {} ELSE {"C06-accessor"}
 \* every date-time inside a result satisfies the C14 invariant
-EntryDtTags(list) == IF \A i \in 1..Len(list) : DtInv(list[i][2]) /\ (list[i][1] = "S" => DtInv(list[i][3])) THEN {} ELSE {"C14-dtinv"}
+EntryDtTags(list) ==
+     (IF \A i \in 1..Len(list) : DtInv(list[i][2]) /\ (list[i][1] = "S" => DtInv(list[i][3])) THEN {} ELSE {"C14-dtinv"})
+     \* a valid result is a date-time constructed from fields: its instant must lie in the supported range
+  \cup (IF \A i \in 1..Len(list) : list[i][1] = "N" => (WLe(MinTW, list[i][2].u) /\ WLe(list[i][2].u, MaxTW)) THEN {} ELSE {"C14-instant-out-of-range"})
 
 \* tags for the result r of a search for fields f, ns in zone z
 FindTags(z, f, ns, r) ==
